@@ -142,7 +142,16 @@ class FuncInfo:
 
     def site(self, node=None) -> str:
         n = node if node is not None else self.node
+        s = getattr(n, "_site", None)       # set by the inliner on nodes that come from a helper
+        if s:
+            return s
         return f"{self.module.rel}:{getattr(n, 'lineno', self.node.lineno)}"
+
+    def __eq__(self, other):
+        return isinstance(other, FuncInfo) and other.qual == self.qual
+
+    def __hash__(self):
+        return hash(self.qual)
 
     @property
     def parents(self) -> dict:
@@ -269,6 +278,7 @@ class Project:
         self._load()
         self._resolve_bases()
         self._callgraph = None
+        self._inliner = None
 
     # ---------------------------------------------------------------- load
     def _load(self):
@@ -355,15 +365,22 @@ class Project:
                     tgt.subclasses.append(ci)
 
     # ------------------------------------------------------------- lookup
-    def func(self, qual: str) -> FuncInfo:
+    def func(self, qual: str, raw: bool = False) -> FuncInfo:
         """qual = 'codelimit.common.utils:make_profile' (short form without the
-        leading package also accepted)."""
-        if qual in self.funcs:
-            return self.funcs[qual]
-        q2 = f"{PKG}.{qual}"
-        if q2 in self.funcs:
-            return self.funcs[q2]
-        raise AnalysisError(f"anchor function {qual} not found in {self.root}")
+        leading package also accepted).  Returns the function with calls of newly
+        extracted (non-baseline) helpers inlined, unless raw=True."""
+        fi = self.funcs.get(qual) or self.funcs.get(f"{PKG}.{qual}")
+        if fi is None:
+            raise AnalysisError(f"anchor function {qual} not found in {self.root}")
+        if raw or os.environ.get("SA_NO_INLINE"):
+            return fi
+        if self._inliner is None:
+            from .inline import Inliner
+            self._inliner = Inliner(self)
+        try:
+            return self._inliner.view(fi)
+        except RecursionError:
+            return fi
 
     def maybe_func(self, qual: str) -> Optional[FuncInfo]:
         try:
